@@ -3,7 +3,7 @@
 AST (python tuples)
   expr: ("int",z) ("str",s) ("bool",b) ("field",k) ("oos",k) ("local",x) ("srec",) ("oosall",) ("nr",)
         ("bin",op,a,b) ("and",a,b) ("or",a,b) ("not",a) ("neg",a) ("tern",c,a,b) ("coal",a,b)
-        ("maplit",[(k,v)]) ("index",b,i) ("call",f,[args]) ("fun1",name,a)
+        ("maplit",[(k,v)]) ("index",b,i) ("call",f,[args]) ("fun1",name,a) ("arrlit",[e]) ("slice",b,lo|None,hi|None)
   stmt: ("assign",base,[idx],e,sugar) ("define",ty,x,e) ("assignsrec",e) ("unset",base,[idx]) ("if",[(c,body)],els|None)
         ("while",c,body) ("do",body,c) ("for1",k,e,body) ("for2",k,v,e,body) ("forc",[init],c|None,[upd],body)
         ("cond",c,body) ("break",) ("continue",) ("return",e|None) ("print",e) ("emit1",e) ("emitmap",e)
@@ -17,7 +17,7 @@ from vlib import coq_bytes, coq_z, coq_bool
 ARITH = {"+": "OAdd", "-": "OSub", "*": "OMul"}
 CMP = {"==": "CEq", "!=": "CNe", "<": "CLt", "<=": "CLe", ">": "CGt", ">=": "CGe"}
 FUN1 = {"typeof": "FTypeof", "is_absent": "FIsAbsent", "is_present": "FIsPresent", "is_error": "FIsError", "is_map": "FIsMap",
-        "is_string": "FIsString", "is_int": "FIsInt", "is_boolean": "FIsBool", "is_empty": "FIsEmpty", "length": "FLength"}
+        "is_string": "FIsString", "is_int": "FIsInt", "is_boolean": "FIsBool", "is_empty": "FIsEmpty", "length": "FLength", "is_array": "FIsArray"}
 TY = {"any": "TAny", "var": "TVar", "int": "TInt", "num": "TNum", "str": "TStr", "bool": "TBool", "map": "TMap",
       "float": "TFloat", "arr": "TArr", "funct": "TFunct"}
 
@@ -65,6 +65,14 @@ def m_expr(e):
         return "{" + ", ".join("%s: %s" % (m_expr(a), m_expr(b)) for a, b in e[1]) + "}"
     if k == "index":
         return "%s[%s]" % (m_expr(e[1]), m_expr(e[2]))
+    if k == "arrlit":
+        return "[" + ", ".join(m_expr(a) for a in e[1]) + "]"
+    if k == "slice":
+        return "%s[%s:%s]" % (m_expr(e[1]), "" if e[2] is None else m_expr(e[2]), "" if e[3] is None else m_expr(e[3]))
+    if k == "posname":
+        return "$[[%s]]" % m_expr(e[1])
+    if k == "posval":
+        return "$[[[%s]]]" % m_expr(e[1])
     if k == "call":
         return "%s(%s)" % (e[1], ", ".join(m_expr(a) for a in e[2]))
     if k == "fun1":
@@ -150,6 +158,12 @@ def m_stmt(s, ind):
         return m_expr(s[1])
     if k == "callsub":
         return "call %s(%s)" % (s[1], ", ".join(m_expr(a) for a in s[2]))
+    if k == "assignposname":
+        return "$[[%s]] = %s" % (m_expr(s[1]), m_expr(s[2]))
+    if k == "assignposval":
+        return "$[[[%s]]] = %s" % (m_expr(s[1]), m_expr(s[2]))
+    if k == "emitf":
+        return "emitf " + ", ".join(m_base(b) for b in s[1])
     raise ValueError(k)
 
 
@@ -219,6 +233,15 @@ def c_expr(e):
         return "(EMapLit %s)" % c_list("(%s, %s)" % (c_expr(a), c_expr(b)) for a, b in e[1])
     if k == "index":
         return "(EIndex %s %s)" % (c_expr(e[1]), c_expr(e[2]))
+    if k == "arrlit":
+        return "(EArrLit %s)" % c_list(c_expr(a) for a in e[1])
+    if k == "slice":
+        void = '(EStr [])'
+        return "(ESlice %s %s %s)" % (c_expr(e[1]), void if e[2] is None else c_expr(e[2]), void if e[3] is None else c_expr(e[3]))
+    if k == "posname":
+        return "(EPosName %s)" % c_expr(e[1])
+    if k == "posval":
+        return "(EPosVal %s)" % c_expr(e[1])
     if k == "call":
         return "(ECall %s %s)" % (cb(e[1]), c_list(c_expr(a) for a in e[2]))
     if k == "fun1":
@@ -281,6 +304,12 @@ def c_stmt(s):
         return "(SBare %s)" % c_expr(s[1])
     if k == "callsub":
         return "(SCall %s %s)" % (cb(s[1]), c_list(c_expr(a) for a in s[2]))
+    if k == "assignposname":
+        return "(SAssignPosName %s %s)" % (c_expr(s[1]), c_expr(s[2]))
+    if k == "assignposval":
+        return "(SAssignPosVal %s %s)" % (c_expr(s[1]), c_expr(s[2]))
+    if k == "emitf":
+        return "(SEmitF %s)" % c_list("(%s, %s)" % (cb(b[1]), c_expr((b[0], b[1]))) for b in s[1])
     raise ValueError(k)
 
 
@@ -310,7 +339,7 @@ def ss(s):
     return n
 
 
-STMT_KINDS = {"formulti", "callsub", "assign", "define", "assignsrec", "unset", "if", "while", "do", "for1", "for2", "forc", "cond", "break", "continue",
+STMT_KINDS = {"assignposname", "assignposval", "emitf", "formulti", "callsub", "assign", "define", "assignsrec", "unset", "if", "while", "do", "for1", "for2", "forc", "cond", "break", "continue",
               "return", "print", "emit1", "emitmap", "emitnamed", "filter", "bare"}
 
 # ------------------------------------------------------------------ generator
@@ -320,7 +349,10 @@ FIELD_NEW = ["x", "y", "z"]
 WORDS = ["pan", "eks", "wye", "zee", "hat", ""]
 LOCALS = ["u", "v", "w", "t", "p", "q", "r"]
 OOS = ["sum", "cnt", "acc", "m", "last"]
-KINDS = ["int", "str", "bool", "map"]
+KINDS = ["int", "str", "bool", "map", "arr"]
+ARRL = ["xs", "ys", "zs"]          # local array names (never chosen by the generic statements)
+OOSARR = ["arr1", "arr2"]
+SLICEWORDS = ["hello", "pan", "h\u00e9llo", "ab", "x"]
 
 
 class Gen:
@@ -359,7 +391,7 @@ class Gen:
         r = self.rng
         choices = ["lit", "lit", "field", "local", "oos"]
         if d > 0:
-            choices += ["bin", "bin", "bin", "tern", "neg", "call", "index", "coal", "nr", "length"]
+            choices += ["bin", "bin", "bin", "tern", "neg", "call", "index", "coal", "nr", "length", "aindex", "aindex", "alength"]
         for _ in range(6):
             c = r.choice(choices)
             if c == "lit":
@@ -392,7 +424,93 @@ class Gen:
                 return ("index", self.e_map(cx, d - 1, leaf="int"), self.e_key(cx))
             if c == "length":
                 return ("fun1", "length", self.e_any(cx, d - 1))
+            if c == "aindex":
+                return ("index", self.e_arr(cx, d - 1, leaf="int"), self.e_aidx(cx, True))
+            if c == "alength":
+                return ("fun1", "length", self.e_arr(cx, d - 1))
         return ("int", r.randint(0, 5))
+
+    def e_aidx(self, cx, wide=False):
+        """an array index: mostly in 1..4 and the negative aliases, now and then 0 / far out / not an int"""
+        r = self.rng
+        c = r.random()
+        if not wide and c >= 0.75:
+            # assignment targets: mostly in range (errors end the program)
+            c = r.random() * 0.8 if r.random() < 0.8 else c
+        if c < 0.45:
+            return ("int", r.randint(1, 4))
+        if c < 0.75:
+            return ("int", -r.randint(1, 4))
+        if c < 0.82:
+            return ("int", 0)
+        if c < 0.9:
+            return ("int", r.choice([5, 6, 7, -5, -6]))
+        if c < 0.95:
+            return self.e_int(cx, 0)
+        return r.choice([("str", "a"), ("str", ""), ("bool", True), ("oos", "nosuch")])
+
+    def e_pos(self, cx):
+        r = self.rng
+        c = r.random()
+        if c < 0.6:
+            return ("int", r.randint(1, 4))
+        if c < 0.8:
+            return ("int", -r.randint(1, 4))
+        if c < 0.9:
+            return ("int", r.choice([0, 5, 7, -6]))
+        if c < 0.95:
+            return ("nr",)
+        return r.choice([("str", "a"), ("oos", "nosuch"), ("bool", True)])
+
+    def e_bound(self, cx):
+        r = self.rng
+        c = r.random()
+        if c < 0.15:
+            return None
+        if c < 0.9:
+            return ("int", r.randint(-6, 7))
+        if c < 0.95:
+            return self.e_int(cx, 0)
+        return r.choice([("str", ""), ("str", "a"), ("oos", "nosuch"), ("bool", False)])
+
+    def e_arr(self, cx, d, leaf=None):
+        r = self.rng
+        choices = ["lit", "lit", "lit", "local", "local", "oos"]
+        if d > 0:
+            choices += ["slice", "slice", "call"]
+        for _ in range(5):
+            c = r.choice(choices)
+            if c == "lit":
+                els = []
+                for _ in range(r.choice([0, 1, 2, 3, 3, 4, 5])):
+                    x = r.random()
+                    lk = leaf or r.choice(["int", "str", "int"])
+                    if d > 0 and x < 0.12:
+                        els.append(self.e_arr(cx, d - 1, leaf))
+                    elif d > 0 and x < 0.2:
+                        els.append(self.e_map(cx, d - 1, leaf))
+                    elif x < 0.24:
+                        els.append(self.e_maybe_absent(cx))
+                    elif lk == "int":
+                        els.append(self.e_int(cx, max(0, d - 1)))
+                    else:
+                        els.append(self.e_str(cx, max(0, d - 1)))
+                return ("arrlit", els)
+            if c == "local":
+                ls = self.lookup(cx["scopes"], "arr")
+                if ls:
+                    return ("local", r.choice(ls))
+            if c == "oos":
+                ks = [n for n, k in self.oos_kind.items() if k == "arr"]
+                if ks:
+                    return ("oos", r.choice(ks))
+            if c == "slice":
+                return ("slice", self.e_arr(cx, d - 1, leaf), self.e_bound(cx), self.e_bound(cx))
+            if c == "call":
+                fs = [f for f in self.funcs if f["kind"] == "arr" and f["name"] in cx["callable"]]
+                if fs:
+                    return self.e_call(cx, r.choice(fs), d - 1)
+        return ("arrlit", [("int", r.randint(0, 9)) for _ in range(r.randint(1, 4))])
 
     def e_key(self, cx):
         r = self.rng
@@ -419,7 +537,7 @@ class Gen:
         r = self.rng
         choices = ["lit", "lit", "field", "local"]
         if d > 0:
-            choices += ["dot", "dot", "tern", "call", "dotint", "typeof"]
+            choices += ["dot", "dot", "tern", "call", "dotint", "typeof", "sslice", "aindex"]
         for _ in range(6):
             c = r.choice(choices)
             if c == "lit":
@@ -436,6 +554,11 @@ class Gen:
                 return ("bin", ".", self.e_str(cx, d - 1), self.e_int(cx, d - 1))
             if c == "typeof":
                 return ("fun1", "typeof", self.e_any(cx, d - 1))
+            if c == "sslice":
+                base = ("str", r.choice(SLICEWORDS)) if r.random() < 0.7 else self.e_str(cx, 0)     # (expr)[..] does not parse: primaries only
+                return ("slice", base, self.e_bound(cx), self.e_bound(cx))
+            if c == "aindex":
+                return ("index", self.e_arr(cx, d - 1, leaf="str"), self.e_aidx(cx, True))
             if c == "tern":
                 return ("tern", self.e_bool(cx, d - 1), self.e_str(cx, d - 1), self.e_str(cx, d - 1))
             if c == "call":
@@ -458,7 +581,7 @@ class Gen:
             if c == "cmps":
                 return ("bin", r.choice(list(CMP)), self.e_str(cx, max(0, d - 1)), self.e_str(cx, max(0, d - 1)))
             if c == "pred":
-                return ("fun1", r.choice(["is_absent", "is_present", "is_error", "is_map", "is_string", "is_int", "is_boolean", "is_empty"]),
+                return ("fun1", r.choice(["is_absent", "is_present", "is_error", "is_map", "is_string", "is_int", "is_boolean", "is_empty", "is_array"]),
                         self.e_any(cx, d - 1))
             if c == "cmpmix":
                 return ("bin", r.choice(list(CMP)), self.e_any(cx, d - 1), self.e_any(cx, d - 1))
@@ -525,7 +648,9 @@ class Gen:
 
     def e_any(self, cx, d):
         r = self.rng
-        c = r.randrange(10)
+        c = r.randrange(11)
+        if c == 10:
+            return self.e_arr(cx, d)
         if c < 3:
             return self.e_int(cx, d)
         if c < 5:
@@ -564,12 +689,12 @@ class Gen:
         # mostly well typed: a small fraction of the time hand back something of another kind
         if self.rng.random() < 0.06:
             return self.e_any(cx, max(0, d - 1))
-        return {"int": self.e_int, "str": self.e_str, "bool": self.e_bool, "map": self.e_map}[kind](cx, d)
+        return {"int": self.e_int, "str": self.e_str, "bool": self.e_bool, "map": self.e_map, "arr": self.e_arr}[kind](cx, d)
 
     def e_call(self, cx, f, d):
         args = []
         for t, x in f["params"]:
-            k = {"int": "int", "num": "int", "str": "str", "bool": "bool", "map": "map"}.get(t)
+            k = {"int": "int", "num": "int", "str": "str", "bool": "bool", "map": "map", "arr": "arr"}.get(t)
             if k is None:
                 k = self.rng.choice(["int", "str"])
             if f.get("rec_param") == x:
@@ -613,7 +738,7 @@ class Gen:
                 if name in sc:
                     return ("local", name), sc[name][0]
         name = self.fresh_local(cx["scopes"])
-        k = r.choice(KINDS)
+        k = r.choice(KINDS[:4])
         cx["scopes"][-1][name] = (k, None)
         return ("local", name), k
 
@@ -628,8 +753,11 @@ class Gen:
         if getattr(self, "bv", False) and not cx["in_func"] and r.random() < 0.2:
             return self.byvalue_stmt(cx)
         kinds = ["assign"] * 6 + ["define"] * 3 + ["print"] * 2 + ["idxassign"] * 2 + ["compound"] * 2 + ["unset", "emit", "bare"]
+        kinds += ["arrdef"] * 2 + ["arrassign"] * 3 + ["arrunset", "arrshow", "arrshow", "emitf"]
+        if cx["fields"] and not cx["in_func"]:
+            kinds += ["posassign"] * 2 + ["posshow"]
         if depth > 0:
-            kinds += ["if"] * 3 + ["while", "for2", "for2", "for1", "forc", "cond", "do", "formulti"]
+            kinds += ["if"] * 3 + ["while", "for2", "for2", "for1", "forc", "cond", "do", "formulti", "forarr", "forarr"]
         if cx["in_loop"]:
             kinds += ["break", "continue"]
         if cx["ret"] is not None:
@@ -645,6 +773,29 @@ class Gen:
         if k == "callsub":
             f = r.choice(subs)
             return ("callsub", f["name"], self.e_call(cx, f, 1)[2])
+        if k in ("arrdef", "arrassign", "arrunset", "arrshow", "forarr"):
+            return self.arr_stmt(cx, depth, k)
+        if k == "emitf":
+            items = []
+            for _ in range(r.randint(1, 3)):
+                c = r.random()
+                ls = self.lookup(cx["scopes"])
+                if c < 0.55 or not ls:
+                    items.append(("oos", r.choice(OOS + ["nosuch"])))
+                elif c < 0.9 or not cx["fields"]:
+                    items.append(("local", r.choice(ls)))
+                else:
+                    items.append(("field", r.choice(FIELDS_INT + FIELDS_STR)))
+            return ("emitf", items)
+        if k == "posassign":
+            pos = self.e_pos(cx)
+            if r.random() < 0.5:
+                name = ("str", r.choice(["a", "b", "c", "new", "x", ""])) if r.random() < 0.8 else self.e_any(cx, 1)
+                return ("assignposname", pos, name)
+            return ("assignposval", pos, self.e_kind(cx, r.choice(["int", "str"]), 1))
+        if k == "posshow":
+            pos = self.e_pos(cx)
+            return ("print", ("bin", ".", ("coal", ("posname", pos), ("str", "-")), ("bin", ".", ("str", "="), ("coal", ("posval", pos), ("str", "-")))))
         if k == "assign":
             base, kind = self.lv_base_kind(cx)
             return ("assign", base, [], self.e_kind(cx, kind, 2), False)
@@ -657,9 +808,11 @@ class Gen:
                 return ("assign", base, [], ("bin", ".", lhs, self.e_str(cx, 1)), True)
             if kind == "bool":
                 return ("assign", base, [], (r.choice(["and", "or"]), lhs, self.e_bool(cx, 1)), True)
+            if kind == "arr":
+                return ("assign", base, [], ("coal", lhs, self.e_arr(cx, 1)), True)
             return ("assign", base, [], ("coal", lhs, self.e_map(cx, 1)), True)
         if k == "define":
-            kind = r.choice(KINDS)
+            kind = r.choice(KINDS[:4])
             ty = r.choice({"int": ["int", "num", "var", "int"], "str": ["str", "var"], "bool": ["bool", "var"], "map": ["map", "var"]}[kind])
             if r.random() < 0.85:
                 name = self.fresh_local(cx["scopes"][-1:])  # fresh in the current scope only: shadowing of outer names is wanted
@@ -838,6 +991,87 @@ class Gen:
             return ("return", self.e_kind(cx, cx["ret"], 2))
         return None
 
+    # ---- arrays
+    def arr_base(self, cx):
+        """an existing array-valued variable, or None"""
+        r = self.rng
+        ls = [("local", n) for n in self.lookup(cx["scopes"], "arr")]
+        ks = [("oos", n) for n, k in self.oos_kind.items() if k == "arr"]
+        cands = ls * 2 + ks
+        return r.choice(cands) if cands else None
+
+    def arr_stmt(self, cx, depth, k):
+        r = self.rng
+        if k == "arrdef" or (k != "arrshow" and self.arr_base(cx) is None):
+            e = self.e_arr(cx, 1)
+            if r.random() < 0.3:
+                name = r.choice(OOSARR)
+                if self.oos_kind.get(name, "arr") != "arr":
+                    return None
+                self.oos_kind[name] = "arr"
+                return ("assign", ("oos", name), [], e, False)
+            used = set()
+            for sc in cx["scopes"]:
+                used |= set(sc)
+            cands = [n for n in ARRL if n not in used]
+            if not cands:
+                ls = self.lookup(cx["scopes"], "arr")
+                if not ls:
+                    return None
+                return ("assign", ("local", r.choice(ls)), [], e, False)
+            name = r.choice(cands)
+            cx["scopes"][-1][name] = ("arr", None)
+            c = r.random()
+            if c < 0.4:
+                return ("define", r.choice(["arr", "var", "arr"]), name, e)
+            return ("assign", ("local", name), [], e, False)
+        if k == "arrassign":
+            base = self.arr_base(cx)
+            c = r.random()
+            if c < 0.7:
+                idx = [self.e_aidx(cx)]
+            elif c < 0.8:
+                idx = [("bin", "+", ("fun1", "length", (base[0], base[1])), ("int", 1))]     # the auto-extend idiom
+            elif c < 0.9:
+                idx = [self.e_aidx(cx), self.e_key(cx)]
+            else:
+                idx = [self.e_aidx(cx), self.e_aidx(cx)]
+            val = self.e_kind(cx, r.choice(["int", "str", "int", "arr", "map"]) if r.random() < 0.3 else r.choice(["int", "str"]), 1)
+            if r.random() < 0.15:
+                return ("assign", base, idx, ("bin", "+", self.as_rvalue(base, idx), self.e_int(cx, 0)), True)
+            return ("assign", base, idx, val, False)
+        if k == "arrunset":
+            base = self.arr_base(cx)
+            return ("unset", base, [self.e_aidx(cx)] + ([self.e_key(cx)] if r.random() < 0.15 else []))
+        if k == "arrshow":
+            e = self.e_arr(cx, 2)
+            c = r.random()
+            if c < 0.5:
+                return ("emit1", ("maplit", [(("str", "v"), e), (("str", "n"), ("fun1", "length", e))]))
+            if c < 0.7:
+                return ("print", ("bin", ".", ("fun1", "typeof", ("index", e, self.e_aidx(cx, True))), ("bin", ".", ("str", ":"), ("fun1", "length", e))))
+            if c < 0.85 and cx["fields"]:
+                return ("assign", ("field", r.choice(FIELD_NEW)), [], e, False)
+            return ("print", ("coal", ("index", e, self.e_aidx(cx, True)), ("str", "none")))
+        if k == "forarr":
+            src = self.e_arr(cx, 1)
+            cxl = dict(cx, in_loop=True)
+            guard = {}
+            if src[0] == "local":
+                guard = {src[1]: ("reserved", None)}      # the body must not write the array it walks over (the loop is over the live array)
+            elif src[0] == "oos" or src[0] == "slice" and r.random() < 0.5:
+                src = ("slice", src, ("int", 1), ("int", -1)) if src[0] == "oos" else src   # a slice is a copy
+            if r.random() < 0.45:
+                kn = r.choice(["el", "e1"])
+                cxl["scopes"] = cx["scopes"] + [dict(guard, **{kn: (r.choice(["int", "str"]), None)})]
+                show = ("print", ("bin", ".", ("str", "el="), ("coal", ("local", kn), ("str", "?")))) if r.random() < 0.8 else ("bare", ("bool", True))
+                return ("for1", kn, src, [show] + self.block(cxl, depth - 1))
+            kn, vn = r.choice(["ix", "i1"]), r.choice(["e", "ee"])
+            cxl["scopes"] = cx["scopes"] + [dict(guard, **{kn: ("int", None), vn: (r.choice(["int", "str"]), None)})]
+            show = ("print", ("bin", ".", ("local", kn), ("bin", ".", ("str", "="), ("coal", ("local", vn), ("str", "?")))))
+            return ("for2", kn, vn, src, [show] + self.block(cxl, depth - 1))
+        return None
+
     def new_cx(self, fields, in_func=False, ret=None, scopes=None, callable_=None):
         return {"fields": fields, "in_loop": False, "in_func": in_func, "ret": ret, "scopes": scopes or [{}],
                 "callable": callable_ if callable_ is not None else [f["name"] for f in self.funcs],
@@ -846,7 +1080,7 @@ class Gen:
     def func(self, idx):
         r = self.rng
         name = ["fa", "fb", "fc"][idx]
-        kind = r.choice(["int", "int", "str", "map", "bool"])
+        kind = r.choice(["int", "int", "str", "map", "bool", "arr"])
         nparams = r.randint(0, 3)
         params = []
         pscope = {}
@@ -857,10 +1091,10 @@ class Gen:
                 t, k = r.choice(["int", "num", "any"]), "int"
             else:
                 k = r.choice(KINDS)
-                t = r.choice({"int": ["int", "num", "any", "var"], "str": ["str", "any"], "bool": ["bool", "any"], "map": ["map", "any", "var"]}[k])
+                t = r.choice({"int": ["int", "num", "any", "var"], "str": ["str", "any"], "bool": ["bool", "any"], "map": ["map", "any", "var"], "arr": ["arr", "any", "var"]}[k])
             params.append((t, pn))
             pscope[pn] = ("reserved" if (recursive and i == 0) else k, t if t != "any" else None)
-        ret = r.choice({"int": ["int", "num", "any", "var"], "str": ["str", "any"], "bool": ["bool", "any"], "map": ["map", "any"]}[kind])
+        ret = r.choice({"int": ["int", "num", "any", "var"], "str": ["str", "any"], "bool": ["bool", "any"], "map": ["map", "any"], "arr": ["arr", "any", "var"]}[kind])
         sig = {"name": name, "params": params, "ret": ret, "kind": kind}
         if recursive:
             sig["rec_param"] = pnames[0]
@@ -895,7 +1129,7 @@ class Gen:
         params, pscope = [], {}
         for pn in pnames:
             k = r.choice(KINDS)
-            t = r.choice({"int": ["int", "num", "any", "var"], "str": ["str", "any"], "bool": ["bool", "any"], "map": ["map", "any", "var"]}[k])
+            t = r.choice({"int": ["int", "num", "any", "var"], "str": ["str", "any"], "bool": ["bool", "any"], "map": ["map", "any", "var"], "arr": ["arr", "any", "var"]}[k])
             params.append((t, pn))
             pscope[pn] = (k, t if t != "any" else None)
         sig = {"name": name, "params": params, "ret": "any", "kind": "sub", "sub": True}
